@@ -82,5 +82,77 @@ def isEnvelopeNaNB [LE α] [DecidableLE α] [DecidableEq α] [HasInf α] (vs : L
   loSideNaNB (vs.map (·.x)) b.mn.x && loSideNaNB (vs.map (·.y)) b.mn.y &&
   hiSideNaNB (vs.map (·.x)) b.mx.x && hiSideNaNB (vs.map (·.y)) b.mx.y
 
+/-! ## box predicates with NaN sides (phase 4)
+
+The sides of a hand-written box may be NaN; whether such a box "has points" is not decided by the property (no point
+lies in it as a set, yet `Max < Min` is false).  What EVERY reading still demands is stated axis by axis, for an axis
+all four of whose sides (two boxes) are values:
+
+* `Overlaps` may answer `true` only if the two closed intervals of that axis share a value (an axis without NaN on
+  which the boxes are separated, or on which one of them is inverted, forces `false` whatever the other axis holds);
+* a non-nil `Intersection` has, on that axis, exactly the common interval of the operands, of positive length
+  (nil is never wrong for operands with a NaN side: under the reading "no point lies in such a box" there is no area);
+* `Empty` must be `true` if an axis without NaN is inverted, and may be `true` only if some axis is inverted or has NaN.
+-/
+
+/-- the closed intervals `[l1,h1]`, `[l2,h2]` share a value -/
+def AxisMeet [LE α] (l1 h1 l2 h2 : α) : Prop := ∃ v, l1 ≤ v ∧ v ≤ h1 ∧ l2 ≤ v ∧ v ≤ h2
+
+/-- `[lo,hi]` is exactly the common part of `[l1,h1]` and `[l2,h2]` and has positive length -/
+def AxisCommon [LE α] [LT α] (l1 h1 l2 h2 lo hi : α) : Prop :=
+  lo < hi ∧ ∀ v, (lo ≤ v ∧ v ≤ hi) ↔ (l1 ≤ v ∧ v ≤ h1 ∧ l2 ≤ v ∧ v ≤ h2)
+
+/-- the Overlaps clause with NaN sides: `o` is the answer of `a.Overlaps(b)` -/
+def OverlapsOkNaN [LE α] (a b : Box (NV α)) (o : Bool) : Prop :=
+  o = true →
+    (∀ l1 h1 l2 h2, a.mn.x = .val l1 → a.mx.x = .val h1 → b.mn.x = .val l2 → b.mx.x = .val h2 → AxisMeet l1 h1 l2 h2) ∧
+    (∀ l1 h1 l2 h2, a.mn.y = .val l1 → a.mx.y = .val h1 → b.mn.y = .val l2 → b.mx.y = .val h2 → AxisMeet l1 h1 l2 h2)
+
+/-- the Intersection clause with NaN sides: `r` is the answer of `a.Intersection(b)` (`none` = nil) -/
+def IntersectionOkNaN [LE α] [LT α] (a b : Box (NV α)) (r : Option (Box (NV α))) : Prop :=
+  ∀ c, r = some c →
+    (∀ l1 h1 l2 h2, a.mn.x = .val l1 → a.mx.x = .val h1 → b.mn.x = .val l2 → b.mx.x = .val h2 →
+      ∃ lo hi, c.mn.x = .val lo ∧ c.mx.x = .val hi ∧ AxisCommon l1 h1 l2 h2 lo hi) ∧
+    (∀ l1 h1 l2 h2, a.mn.y = .val l1 → a.mx.y = .val h1 → b.mn.y = .val l2 → b.mx.y = .val h2 →
+      ∃ lo hi, c.mn.y = .val lo ∧ c.mx.y = .val hi ∧ AxisCommon l1 h1 l2 h2 lo hi)
+
+/-- the Empty clause with NaN sides: `e` is the answer of `b.Empty()` -/
+def EmptyOkNaN [LE α] [LT α] (b : Box (NV α)) (e : Bool) : Prop :=
+  (∀ l h, b.mn.x = .val l → b.mx.x = .val h → h < l → e = true) ∧
+  (∀ l h, b.mn.y = .val l → b.mx.y = .val h → h < l → e = true) ∧
+  (e = true → ¬ ∃ lx hx ly hy, b.mn.x = .val lx ∧ b.mx.x = .val hx ∧ b.mn.y = .val ly ∧ b.mx.y = .val hy ∧ lx ≤ hx ∧ ly ≤ hy)
+
+/-! decidable forms (run by the judge on the implementation's answers; `C04_spec_boxNaN`: equivalent) -/
+
+def axisMeetB [LE α] [DecidableLE α] (lo1 hi1 lo2 hi2 : NV α) : Bool :=
+  match lo1, hi1, lo2, hi2 with
+  | .val l1, .val h1, .val l2, .val h2 => decide (l1 ≤ h1) && decide (l2 ≤ h2) && decide (l1 ≤ h2) && decide (l2 ≤ h1)
+  | _, _, _, _ => true
+
+def overlapsOkNaNB [LE α] [DecidableLE α] (a b : Box (NV α)) (o : Bool) : Bool :=
+  !o || (axisMeetB a.mn.x a.mx.x b.mn.x b.mx.x && axisMeetB a.mn.y a.mx.y b.mn.y b.mx.y)
+
+def axisCommonB [LT α] [DecidableLT α] [Min α] [Max α] [DecidableEq α] (lo1 hi1 lo2 hi2 clo chi : NV α) : Bool :=
+  match lo1, hi1, lo2, hi2 with
+  | .val l1, .val h1, .val l2, .val h2 =>
+    decide (clo = .val (max l1 l2)) && decide (chi = .val (min h1 h2)) && decide (max l1 l2 < min h1 h2)
+  | _, _, _, _ => true
+
+def intersectionOkNaNB [LT α] [DecidableLT α] [Min α] [Max α] [DecidableEq α] (a b : Box (NV α)) (r : Option (Box (NV α))) : Bool :=
+  match r with
+  | none => true
+  | some c => axisCommonB a.mn.x a.mx.x b.mn.x b.mx.x c.mn.x c.mx.x && axisCommonB a.mn.y a.mx.y b.mn.y b.mx.y c.mn.y c.mx.y
+
+/-- 0 = this axis is values and inverted, 1 = values and not inverted, 2 = has a NaN side -/
+def axisKind [LT α] [DecidableLT α] (lo hi : NV α) : Nat :=
+  match lo, hi with
+  | .val l, .val h => if h < l then 0 else 1
+  | _, _ => 2
+
+def emptyOkNaNB [LT α] [DecidableLT α] (b : Box (NV α)) (e : Bool) : Bool :=
+  let kx := axisKind b.mn.x b.mx.x
+  let ky := axisKind b.mn.y b.mx.y
+  if kx == 0 || ky == 0 then e else if kx == 1 && ky == 1 then !e else true
+
 end Spec
 end GeomV.C04
